@@ -34,6 +34,13 @@ def case(r, nd):
             cur = new
         else:
             sg = float(r.choice([0.3, 1.0, 2.5])) * min(d)
+            if r.integers(0, 3) == 0:
+                # a per-axis float64 array that the caller keeps and uses twice
+                arr = [sg * float(r.choice([1.0, 2.0])) for _ in range(nd)]
+                key = f"s{len(ops)}"
+                ops.append({"kind": "smooth", "sigma": arr, "share": key})
+                ops.append({"kind": "smooth", "sigma": arr, "share": key})
+                continue
             ops.append({"kind": "smooth", "sigma": sg if r.integers(0, 2) else [sg * float(r.choice([1.0, 2.0])) for _ in range(nd)]})
     ext = [sh[a] * d[a] for a in range(nd)]
     src = [o[a] + float(r.uniform(0.1, 0.9)) * ext[a] for a in range(nd)]
@@ -90,6 +97,10 @@ def run(tier):
                     ck.violation("smooth changed shape, spacing or origin", {"case": _enc(t), "before": _geo(b), "after": _geo(a)})
                     break
                 sg = np.broadcast_to(np.asarray(op_["sigma"], dtype=float), (len(b["gridsize"]),))
+                if a.get("sigma_arg_after") is not None and not np.array_equal(a["sigma_arg_after"], np.asarray(op_["sigma"], dtype=float)):
+                    ck.violation("smooth modified the caller's sigma array", {"case": _enc(t), "before": list(op_["sigma"]),
+                                                                                "after": a["sigma_arg_after"].tolist()})
+                    break
                 want = sg / np.asarray(b["gridsize"])
                 if a["sigma_cells"] is None or not np.allclose(a["sigma_cells"], want, rtol=1e-12):
                     ck.violation("sigma handed to the Gaussian filter is not sigma / spacing per axis",
